@@ -99,6 +99,10 @@ package paymentsdb
 //@   site store MPPaymentState.HasSettledHTLC: assert value == (retn(TerminalInfo, 0) != nil)
 //@   site store MPPaymentState.PaymentFailed:  assert value == (retn(TerminalInfo, 1) != nil)
 //@   site call decidePaymentStatus: assert arg(htlcs) == m.HTLCs && arg(reason) == m.FailureReason
+//@   // success means the state WAS recomputed: the reported status is the decided one and a fresh state record is in place
+//@   ensures result == nil ==> called(decidePaymentStatus) && m.Status == retn(decidePaymentStatus, 0) && m.State != nil &&
+//@           m.State.RemainingAmt == m.Info.Value - retn(SentAmt, 0) && m.State.HasSettledHTLC == (retn(TerminalInfo, 0) != nil) &&
+//@           m.State.PaymentFailed == (retn(TerminalInfo, 1) != nil)
 //@   nowrap
 //@
 //@ func (p *KVStore) InitPayment$1
